@@ -98,14 +98,14 @@ theorem outOK_resendRequest (b e : Int) : OutOK (mkOut "2" [(7, toString b), (16
     · exact ⟨toString_int_ne_empty _, by simp, by simp, by simp, by simp⟩)
     (fun _ => ⟨b, e, by simp [get?_cons], by simp [get?_cons]⟩) (SecOrd.body rfl)
 
-theorem outOK_logon (s : Sess) : OutOK (logonMsg s false) := by
-  unfold logonMsg
+theorem outOK_logonX (s : Sess) (nx : Option Int) : OutOK (logonMsgX s false nx) := by
+  unfold logonMsgX
   refine outOK_mk _ _ (by decide) (by decide) ?_ (fun h => absurd h (by decide)) (SecOrd.body (by
     simp only [Bool.false_eq_true, if_false, List.append_nil]
-    split <;> rfl))
+    cases nx <;> split <;> rfl))
   intro p hp
   simp only [Bool.false_eq_true, if_false, List.append_nil, List.mem_append, List.mem_singleton] at hp
-  rcases hp with rfl | hp
+  rcases hp with (rfl | hp) | hp
   · exact ⟨toString_int_ne_empty _, by simp, by simp, by simp, by simp⟩
   · split at hp
     · cases hp
@@ -115,6 +115,13 @@ theorem outOK_logon (s : Sess) : OutOK (logonMsg s false) := by
       intro h
       have h' : s.cfg.applVer = "" := h
       rw [h'] at hne; exact hne (by decide)
+  · cases nx with
+    | none => cases hp
+    | some n =>
+      simp only [nxTag, List.mem_singleton] at hp; subst hp
+      exact ⟨toString_int_ne_empty _, by simp, by simp, by simp, by simp⟩
+
+theorem outOK_logon (s : Sess) : OutOK (logonMsg s false) := outOK_logonX s _
 
 theorem cp_ok (im : InMsg) (src dst : Nat) (p : Nat × String)
     (hp : p ∈ (match im.f.get? src with | some v => if v.isEmpty then ([] : Fields) else [(dst, v)] | none => [])) : p.1 = dst ∧ p.2 ≠ "" := by
@@ -390,7 +397,7 @@ theorem sext_doReject (s : Sess) (im : InMsg) (r : Nat) (t : Option Nat) (hk : k
   exact sext_sendInReplyTo s _ ((outOK_reject _ _ _ _ hk).re _)
 
 theorem sext_sendLogonInReplyTo (s : Sess) : SExt s (sendLogonInReplyTo s false) := sext_dropAndSend s _ (outOK_logon s)
-theorem sext_sendLogonRe (s : Sess) (m : InMsg) : SExt s (sendLogonRe s false m) := sext_dropAndSend s _ ((outOK_logon s).re m)
+theorem sext_sendLogonRe (s : Sess) (m : InMsg) : SExt s (sendLogonRe s false m) := sext_dropAndSend s _ ((outOK_logonX s _).re m)
 
 section peel
 variable {s x : Sess}
